@@ -505,6 +505,24 @@ shut:
 
 
 static int
+fncmp(const char *fn1, const char *fn2)
+{
+/* like strcmp() but two spellings of one file compare equal,
+ * FN1 is going to be created anyway so do that now */
+	struct stat s1, s2;
+	int fd;
+
+	if (!strcmp(fn1, fn2)) {
+		return 0;
+	} else if ((fd = open(fn1, O_WRONLY | O_CREAT, 0666)) < 0) {
+		return 1;
+	}
+	close(fd);
+	return stat(fn1, &s1) < 0 || stat(fn2, &s2) < 0 ||
+		s1.st_dev != s2.st_dev || s1.st_ino != s2.st_ino;
+}
+
+static int
 prep_task(echsx_task_t t)
 {
 /* we've got those 20 combinations between
@@ -620,7 +638,7 @@ cannot open %s for output: %s", t->t->out, STRERR);
 			}
 		}
 		if (t->t->err &&
-		    (t->t->out == NULL || strcmp(t->t->out, t->t->err))) {
+		    (t->t->out == NULL || fncmp(t->t->out, t->t->err))) {
 			/* R8 || R20 */
 			t->efd = open(t->t->err, fl, 0666);
 			if (UNLIKELY(t->efd < 0)) {
@@ -640,7 +658,7 @@ cannot open %s for error output: %s", t->t->err, STRERR);
 		}
 	} else if (t->t->mailout && t->t->mailerr &&
 		   t->t->out && t->t->err &&
-		   !strcmp(t->t->out, t->t->err)) {
+		   !fncmp(t->t->out, t->t->err)) {
 		/* this is simple again, R13 */
 		const int fl = O_WRONLY | O_TRUNC | O_CREAT;
 
@@ -652,7 +670,7 @@ cannot open %s for output: %s", t->t->out, STRERR);
 		}
 	} else if ((t->t->mailout == 0U) ^ (t->t->mailerr == 0U) &&
 		   (t->t->out == NULL || t->t->err == NULL ||
-		    strcmp(t->t->out, t->t->err))) {
+		    fncmp(t->t->out, t->t->err))) {
 		/* all the pipe-less stuff, R6, R7, R10, R11, R18, R19 */
 		const int fl = O_WRONLY | O_TRUNC | O_CREAT;
 
@@ -779,7 +797,7 @@ cannot open pipe for error output: %s", STRERR);
 		t->mrm = 1U;
 
 		if (t->t->out && t->t->err &&
-		    !strcmp(t->t->out, t->t->err)) {
+		    !fncmp(t->t->out, t->t->err)) {
 			/* R14, R15, turn the tee on its head */
 			if (t->t->mailout) {
 				/* R14 */
